@@ -11,6 +11,11 @@ type nat =
 | O
 | S of nat
 
+(** val fst : ('a1 * 'a2) -> 'a1 **)
+
+let fst = function
+| (x, _) -> x
+
 (** val snd : ('a1 * 'a2) -> 'a2 **)
 
 let snd = function
@@ -146,6 +151,17 @@ type z =
 
 module Nat =
  struct
+  (** val eqb : nat -> nat -> bool **)
+
+  let rec eqb n0 m =
+    match n0 with
+    | O -> (match m with
+            | O -> true
+            | S _ -> false)
+    | S n' -> (match m with
+               | O -> false
+               | S m' -> eqb n' m')
+
   (** val leb : nat -> nat -> bool **)
 
   let rec leb n0 m =
@@ -433,6 +449,24 @@ module Coq_Pos =
 
 module N =
  struct
+  (** val add : n -> n -> n **)
+
+  let add n0 m =
+    match n0 with
+    | N0 -> m
+    | Npos p -> (match m with
+                 | N0 -> n0
+                 | Npos q0 -> Npos (Coq_Pos.add p q0))
+
+  (** val mul : n -> n -> n **)
+
+  let mul n0 m =
+    match n0 with
+    | N0 -> N0
+    | Npos p -> (match m with
+                 | N0 -> N0
+                 | Npos q0 -> Npos (Coq_Pos.mul p q0))
+
   (** val of_nat : nat -> n **)
 
   let of_nat = function
@@ -475,6 +509,32 @@ let ascii_of_N = function
 
 let ascii_of_nat a =
   ascii_of_N (N.of_nat a)
+
+(** val n_of_digits : bool list -> n **)
+
+let rec n_of_digits = function
+| [] -> N0
+| b :: l' ->
+  N.add (if b then Npos XH else N0) (N.mul (Npos (XO XH)) (n_of_digits l'))
+
+(** val n_of_ascii : char -> n **)
+
+let n_of_ascii a =
+  (* If this appears, you're using Ascii internals. Please don't *)
+ (fun f c ->
+  let n = Char.code c in
+  let h i = (n land (1 lsl i)) <> 0 in
+  f (h 0) (h 1) (h 2) (h 3) (h 4) (h 5) (h 6) (h 7))
+    (fun a0 a1 a2 a3 a4 a5 a6 a7 ->
+    n_of_digits
+      (a0 :: (a1 :: (a2 :: (a3 :: (a4 :: (a5 :: (a6 :: (a7 :: [])))))))))
+    a
+
+(** val hd : 'a1 -> 'a1 list -> 'a1 **)
+
+let hd default = function
+| [] -> default
+| x :: _ -> x
 
 (** val hd_error : 'a1 list -> 'a1 option **)
 
@@ -535,6 +595,12 @@ let rec existsb f = function
 | [] -> false
 | a :: l0 -> (||) (f a) (existsb f l0)
 
+(** val forallb : ('a1 -> bool) -> 'a1 list -> bool **)
+
+let rec forallb f = function
+| [] -> true
+| a :: l0 -> (&&) (f a) (forallb f l0)
+
 (** val filter : ('a1 -> bool) -> 'a1 list -> 'a1 list **)
 
 let rec filter f = function
@@ -564,6 +630,12 @@ let rec skipn n0 l =
   | S n1 -> (match l with
              | [] -> []
              | _ :: l0 -> skipn n1 l0)
+
+(** val seq : nat -> nat -> nat list **)
+
+let rec seq start = function
+| O -> []
+| S len0 -> start :: (seq (S start) len0)
 
 module Z =
  struct
@@ -733,6 +805,12 @@ module Z =
   | O -> Z0
   | S n1 -> Zpos (Coq_Pos.of_succ_nat n1)
 
+  (** val of_N : n -> z **)
+
+  let of_N = function
+  | N0 -> Z0
+  | Npos p -> Zpos p
+
   (** val to_pos : z -> positive **)
 
   let to_pos = function
@@ -841,6 +919,8 @@ let rec length0 s =
     (fun _ -> O)
     (fun _ s' -> S (length0 s'))
     s
+
+
 
 type q = { qnum : z; qden : positive }
 
@@ -4143,6 +4223,1355 @@ let exn_name = function
 | ElectionError -> "ElectionError"
 | ElectionProfileError -> "ElectionProfileError"
 
+(** val space_ranges : (z * z) list **)
+
+let space_ranges =
+  ((Zpos (XI (XO (XO XH)))), (Zpos (XI (XO (XI XH))))) :: (((Zpos (XO (XO (XI
+    (XI XH))))), (Zpos (XO (XO (XO (XO (XO XH))))))) :: (((Zpos (XI (XO (XI
+    (XO (XO (XO (XO XH)))))))), (Zpos (XI (XO (XI (XO (XO (XO (XO
+    XH))))))))) :: (((Zpos (XO (XO (XO (XO (XO (XI (XO XH)))))))), (Zpos (XO
+    (XO (XO (XO (XO (XI (XO XH))))))))) :: (((Zpos (XO (XO (XO (XO (XO (XO
+    (XO (XI (XO (XI (XI (XO XH))))))))))))), (Zpos (XO (XO (XO (XO (XO (XO
+    (XO (XI (XO (XI (XI (XO XH)))))))))))))) :: (((Zpos (XO (XO (XO (XO (XO
+    (XO (XO (XO (XO (XO (XO (XO (XO XH)))))))))))))), (Zpos (XO (XI (XO (XI
+    (XO (XO (XO (XO (XO (XO (XO (XO (XO XH))))))))))))))) :: (((Zpos (XO (XO
+    (XO (XI (XO (XI (XO (XO (XO (XO (XO (XO (XO XH)))))))))))))), (Zpos (XI
+    (XO (XO (XI (XO (XI (XO (XO (XO (XO (XO (XO (XO
+    XH))))))))))))))) :: (((Zpos (XI (XI (XI (XI (XO (XI (XO (XO (XO (XO (XO
+    (XO (XO XH)))))))))))))), (Zpos (XI (XI (XI (XI (XO (XI (XO (XO (XO (XO
+    (XO (XO (XO XH))))))))))))))) :: (((Zpos (XI (XI (XI (XI (XI (XO (XI (XO
+    (XO (XO (XO (XO (XO XH)))))))))))))), (Zpos (XI (XI (XI (XI (XI (XO (XI
+    (XO (XO (XO (XO (XO (XO XH))))))))))))))) :: (((Zpos (XO (XO (XO (XO (XO
+    (XO (XO (XO (XO (XO (XO (XO (XI XH)))))))))))))), (Zpos (XO (XO (XO (XO
+    (XO (XO (XO (XO (XO (XO (XO (XO (XI XH))))))))))))))) :: [])))))))))
+
+(** val linebreak_ranges : (z * z) list **)
+
+let linebreak_ranges =
+  ((Zpos (XO (XI (XO XH)))), (Zpos (XI (XO (XI XH))))) :: (((Zpos (XO (XO (XI
+    (XI XH))))), (Zpos (XO (XI (XI (XI XH)))))) :: (((Zpos (XI (XO (XI (XO
+    (XO (XO (XO XH)))))))), (Zpos (XI (XO (XI (XO (XO (XO (XO
+    XH))))))))) :: (((Zpos (XO (XO (XO (XI (XO (XI (XO (XO (XO (XO (XO (XO
+    (XO XH)))))))))))))), (Zpos (XI (XO (XO (XI (XO (XI (XO (XO (XO (XO (XO
+    (XO (XO XH))))))))))))))) :: [])))
+
+(** val digit_ranges : ((z * z) * z) list **)
+
+let digit_ranges =
+  (((Zpos (XO (XO (XO (XO (XI XH)))))), (Zpos (XI (XO (XO (XI (XI XH))))))),
+    Z0) :: ((((Zpos (XO (XO (XO (XO (XO (XI (XI (XO (XO (XI XH))))))))))),
+    (Zpos (XI (XO (XO (XI (XO (XI (XI (XO (XO (XI XH)))))))))))),
+    Z0) :: ((((Zpos (XO (XO (XO (XO (XI (XI (XI (XI (XO (XI XH))))))))))),
+    (Zpos (XI (XO (XO (XI (XI (XI (XI (XI (XO (XI XH)))))))))))),
+    Z0) :: ((((Zpos (XO (XO (XO (XO (XO (XO (XI (XI (XI (XI XH))))))))))),
+    (Zpos (XI (XO (XO (XI (XO (XO (XI (XI (XI (XI XH)))))))))))),
+    Z0) :: ((((Zpos (XO (XI (XI (XO (XO (XI (XI (XO (XI (XO (XO
+    XH)))))))))))), (Zpos (XI (XI (XI (XI (XO (XI (XI (XO (XI (XO (XO
+    XH))))))))))))), Z0) :: ((((Zpos (XO (XI (XI (XO (XO (XI (XI (XI (XI (XO
+    (XO XH)))))))))))), (Zpos (XI (XI (XI (XI (XO (XI (XI (XI (XI (XO (XO
+    XH))))))))))))), Z0) :: ((((Zpos (XO (XI (XI (XO (XO (XI (XI (XO (XO (XI
+    (XO XH)))))))))))), (Zpos (XI (XI (XI (XI (XO (XI (XI (XO (XO (XI (XO
+    XH))))))))))))), Z0) :: ((((Zpos (XO (XI (XI (XO (XO (XI (XI (XI (XO (XI
+    (XO XH)))))))))))), (Zpos (XI (XI (XI (XI (XO (XI (XI (XI (XO (XI (XO
+    XH))))))))))))), Z0) :: ((((Zpos (XO (XI (XI (XO (XO (XI (XI (XO (XI (XI
+    (XO XH)))))))))))), (Zpos (XI (XI (XI (XI (XO (XI (XI (XO (XI (XI (XO
+    XH))))))))))))), Z0) :: ((((Zpos (XO (XI (XI (XO (XO (XI (XI (XI (XI (XI
+    (XO XH)))))))))))), (Zpos (XI (XI (XI (XI (XO (XI (XI (XI (XI (XI (XO
+    XH))))))))))))), Z0) :: ((((Zpos (XO (XI (XI (XO (XO (XI (XI (XO (XO (XO
+    (XI XH)))))))))))), (Zpos (XI (XI (XI (XI (XO (XI (XI (XO (XO (XO (XI
+    XH))))))))))))), Z0) :: ((((Zpos (XO (XI (XI (XO (XO (XI (XI (XI (XO (XO
+    (XI XH)))))))))))), (Zpos (XI (XI (XI (XI (XO (XI (XI (XI (XO (XO (XI
+    XH))))))))))))), Z0) :: ((((Zpos (XO (XI (XI (XO (XO (XI (XI (XO (XI (XO
+    (XI XH)))))))))))), (Zpos (XI (XI (XI (XI (XO (XI (XI (XO (XI (XO (XI
+    XH))))))))))))), Z0) :: ((((Zpos (XO (XI (XI (XO (XO (XI (XI (XI (XI (XO
+    (XI XH)))))))))))), (Zpos (XI (XI (XI (XI (XO (XI (XI (XI (XI (XO (XI
+    XH))))))))))))), Z0) :: ((((Zpos (XO (XO (XO (XO (XI (XO (XI (XO (XO (XI
+    (XI XH)))))))))))), (Zpos (XI (XO (XO (XI (XI (XO (XI (XO (XO (XI (XI
+    XH))))))))))))), Z0) :: ((((Zpos (XO (XO (XO (XO (XI (XO (XI (XI (XO (XI
+    (XI XH)))))))))))), (Zpos (XI (XO (XO (XI (XI (XO (XI (XI (XO (XI (XI
+    XH))))))))))))), Z0) :: ((((Zpos (XO (XO (XO (XO (XO (XI (XO (XO (XI (XI
+    (XI XH)))))))))))), (Zpos (XI (XO (XO (XI (XO (XI (XO (XO (XI (XI (XI
+    XH))))))))))))), Z0) :: ((((Zpos (XO (XO (XO (XO (XO (XO (XI (XO (XO (XO
+    (XO (XO XH))))))))))))), (Zpos (XI (XO (XO (XI (XO (XO (XI (XO (XO (XO
+    (XO (XO XH)))))))))))))), Z0) :: ((((Zpos (XO (XO (XO (XO (XI (XO (XO (XI
+    (XO (XO (XO (XO XH))))))))))))), (Zpos (XI (XO (XO (XI (XI (XO (XO (XI
+    (XO (XO (XO (XO XH)))))))))))))), Z0) :: ((((Zpos (XO (XO (XO (XO (XO (XI
+    (XI (XI (XI (XI (XI (XO XH))))))))))))), (Zpos (XI (XO (XO (XI (XO (XI
+    (XI (XI (XI (XI (XI (XO XH)))))))))))))), Z0) :: ((((Zpos (XO (XO (XO (XO
+    (XI (XO (XO (XO (XO (XO (XO (XI XH))))))))))))), (Zpos (XI (XO (XO (XI
+    (XI (XO (XO (XO (XO (XO (XO (XI XH)))))))))))))), Z0) :: ((((Zpos (XO (XI
+    (XI (XO (XO (XO (XI (XO (XI (XO (XO (XI XH))))))))))))), (Zpos (XI (XI
+    (XI (XI (XO (XO (XI (XO (XI (XO (XO (XI XH)))))))))))))), Z0) :: ((((Zpos
+    (XO (XO (XO (XO (XI (XO (XI (XI (XI (XO (XO (XI XH))))))))))))), (Zpos
+    (XI (XO (XO (XI (XI (XO (XI (XI (XI (XO (XO (XI XH)))))))))))))),
+    Z0) :: ((((Zpos (XO (XO (XO (XO (XO (XO (XO (XI (XO (XI (XO (XI
+    XH))))))))))))), (Zpos (XI (XO (XO (XI (XO (XO (XO (XI (XO (XI (XO (XI
+    XH)))))))))))))), Z0) :: ((((Zpos (XO (XO (XO (XO (XI (XO (XO (XI (XO (XI
+    (XO (XI XH))))))))))))), (Zpos (XI (XO (XO (XI (XI (XO (XO (XI (XO (XI
+    (XO (XI XH)))))))))))))), Z0) :: ((((Zpos (XO (XO (XO (XO (XI (XO (XI (XO
+    (XI (XI (XO (XI XH))))))))))))), (Zpos (XI (XO (XO (XI (XI (XO (XI (XO
+    (XI (XI (XO (XI XH)))))))))))))), Z0) :: ((((Zpos (XO (XO (XO (XO (XI (XI
+    (XO (XI (XI (XI (XO (XI XH))))))))))))), (Zpos (XI (XO (XO (XI (XI (XI
+    (XO (XI (XI (XI (XO (XI XH)))))))))))))), Z0) :: ((((Zpos (XO (XO (XO (XO
+    (XO (XO (XI (XO (XO (XO (XI (XI XH))))))))))))), (Zpos (XI (XO (XO (XI
+    (XO (XO (XI (XO (XO (XO (XI (XI XH)))))))))))))), Z0) :: ((((Zpos (XO (XO
+    (XO (XO (XI (XO (XI (XO (XO (XO (XI (XI XH))))))))))))), (Zpos (XI (XO
+    (XO (XI (XI (XO (XI (XO (XO (XO (XI (XI XH)))))))))))))), Z0) :: ((((Zpos
+    (XO (XO (XO (XO (XO (XI (XO (XO (XO (XI (XI (XO (XO (XI (XO
+    XH)))))))))))))))), (Zpos (XI (XO (XO (XI (XO (XI (XO (XO (XO (XI (XI (XO
+    (XO (XI (XO XH))))))))))))))))), Z0) :: ((((Zpos (XO (XO (XO (XO (XI (XO
+    (XI (XI (XO (XO (XO (XI (XO (XI (XO XH)))))))))))))))), (Zpos (XI (XO (XO
+    (XI (XI (XO (XI (XI (XO (XO (XO (XI (XO (XI (XO XH))))))))))))))))),
+    Z0) :: ((((Zpos (XO (XO (XO (XO (XO (XO (XO (XO (XI (XO (XO (XI (XO (XI
+    (XO XH)))))))))))))))), (Zpos (XI (XO (XO (XI (XO (XO (XO (XO (XI (XO (XO
+    (XI (XO (XI (XO XH))))))))))))))))), Z0) :: ((((Zpos (XO (XO (XO (XO (XI
+    (XO (XI (XI (XI (XO (XO (XI (XO (XI (XO XH)))))))))))))))), (Zpos (XI (XO
+    (XO (XI (XI (XO (XI (XI (XI (XO (XO (XI (XO (XI (XO XH))))))))))))))))),
+    Z0) :: ((((Zpos (XO (XO (XO (XO (XI (XI (XI (XI (XI (XO (XO (XI (XO (XI
+    (XO XH)))))))))))))))), (Zpos (XI (XO (XO (XI (XI (XI (XI (XI (XI (XO (XO
+    (XI (XO (XI (XO XH))))))))))))))))), Z0) :: ((((Zpos (XO (XO (XO (XO (XI
+    (XO (XI (XO (XO (XI (XO (XI (XO (XI (XO XH)))))))))))))))), (Zpos (XI (XO
+    (XO (XI (XI (XO (XI (XO (XO (XI (XO (XI (XO (XI (XO XH))))))))))))))))),
+    Z0) :: ((((Zpos (XO (XO (XO (XO (XI (XI (XI (XI (XI (XI (XO (XI (XO (XI
+    (XO XH)))))))))))))))), (Zpos (XI (XO (XO (XI (XI (XI (XI (XI (XI (XI (XO
+    (XI (XO (XI (XO XH))))))))))))))))), Z0) :: ((((Zpos (XO (XO (XO (XO (XI
+    (XO (XO (XO (XI (XI (XI (XI (XI (XI (XI XH)))))))))))))))), (Zpos (XI (XO
+    (XO (XI (XI (XO (XO (XO (XI (XI (XI (XI (XI (XI (XI XH))))))))))))))))),
+    Z0) :: ((((Zpos (XO (XO (XO (XO (XO (XI (XO (XI (XO (XO (XI (XO (XO (XO
+    (XO (XO XH))))))))))))))))), (Zpos (XI (XO (XO (XI (XO (XI (XO (XI (XO
+    (XO (XI (XO (XO (XO (XO (XO XH)))))))))))))))))), Z0) :: ((((Zpos (XO (XO
+    (XO (XO (XI (XI (XO (XO (XI (XO (XI (XI (XO (XO (XO (XO
+    XH))))))))))))))))), (Zpos (XI (XO (XO (XI (XI (XI (XO (XO (XI (XO (XI
+    (XI (XO (XO (XO (XO XH)))))))))))))))))), Z0) :: ((((Zpos (XO (XI (XI (XO
+    (XO (XI (XI (XO (XO (XO (XO (XO (XI (XO (XO (XO XH))))))))))))))))),
+    (Zpos (XI (XI (XI (XI (XO (XI (XI (XO (XO (XO (XO (XO (XI (XO (XO (XO
+    XH)))))))))))))))))), Z0) :: ((((Zpos (XO (XO (XO (XO (XI (XI (XI (XI (XO
+    (XO (XO (XO (XI (XO (XO (XO XH))))))))))))))))), (Zpos (XI (XO (XO (XI
+    (XI (XI (XI (XI (XO (XO (XO (XO (XI (XO (XO (XO XH)))))))))))))))))),
+    Z0) :: ((((Zpos (XO (XI (XI (XO (XI (XI (XO (XO (XI (XO (XO (XO (XI (XO
+    (XO (XO XH))))))))))))))))), (Zpos (XI (XI (XI (XI (XI (XI (XO (XO (XI
+    (XO (XO (XO (XI (XO (XO (XO XH)))))))))))))))))), Z0) :: ((((Zpos (XO (XO
+    (XO (XO (XI (XO (XI (XI (XI (XO (XO (XO (XI (XO (XO (XO
+    XH))))))))))))))))), (Zpos (XI (XO (XO (XI (XI (XO (XI (XI (XI (XO (XO
+    (XO (XI (XO (XO (XO XH)))))))))))))))))), Z0) :: ((((Zpos (XO (XO (XO (XO
+    (XI (XI (XI (XI (XO (XI (XO (XO (XI (XO (XO (XO XH))))))))))))))))),
+    (Zpos (XI (XO (XO (XI (XI (XI (XI (XI (XO (XI (XO (XO (XI (XO (XO (XO
+    XH)))))))))))))))))), Z0) :: ((((Zpos (XO (XO (XO (XO (XI (XO (XI (XO (XO
+    (XO (XI (XO (XI (XO (XO (XO XH))))))))))))))))), (Zpos (XI (XO (XO (XI
+    (XI (XO (XI (XO (XO (XO (XI (XO (XI (XO (XO (XO XH)))))))))))))))))),
+    Z0) :: ((((Zpos (XO (XO (XO (XO (XI (XO (XI (XI (XO (XO (XI (XO (XI (XO
+    (XO (XO XH))))))))))))))))), (Zpos (XI (XO (XO (XI (XI (XO (XI (XI (XO
+    (XO (XI (XO (XI (XO (XO (XO XH)))))))))))))))))), Z0) :: ((((Zpos (XO (XO
+    (XO (XO (XI (XO (XI (XO (XO (XI (XI (XO (XI (XO (XO (XO
+    XH))))))))))))))))), (Zpos (XI (XO (XO (XI (XI (XO (XI (XO (XO (XI (XI
+    (XO (XI (XO (XO (XO XH)))))))))))))))))), Z0) :: ((((Zpos (XO (XO (XO (XO
+    (XO (XO (XI (XI (XO (XI (XI (XO (XI (XO (XO (XO XH))))))))))))))))),
+    (Zpos (XI (XO (XO (XI (XO (XO (XI (XI (XO (XI (XI (XO (XI (XO (XO (XO
+    XH)))))))))))))))))), Z0) :: ((((Zpos (XO (XO (XO (XO (XI (XI (XO (XO (XI
+    (XI (XI (XO (XI (XO (XO (XO XH))))))))))))))))), (Zpos (XI (XO (XO (XI
+    (XI (XI (XO (XO (XI (XI (XI (XO (XI (XO (XO (XO XH)))))))))))))))))),
+    Z0) :: ((((Zpos (XO (XO (XO (XO (XO (XI (XI (XI (XO (XO (XO (XI (XI (XO
+    (XO (XO XH))))))))))))))))), (Zpos (XI (XO (XO (XI (XO (XI (XI (XI (XO
+    (XO (XO (XI (XI (XO (XO (XO XH)))))))))))))))))), Z0) :: ((((Zpos (XO (XO
+    (XO (XO (XI (XO (XI (XO (XI (XO (XO (XI (XI (XO (XO (XO
+    XH))))))))))))))))), (Zpos (XI (XO (XO (XI (XI (XO (XI (XO (XI (XO (XO
+    (XI (XI (XO (XO (XO XH)))))))))))))))))), Z0) :: ((((Zpos (XO (XO (XO (XO
+    (XI (XO (XI (XO (XO (XO (XI (XI (XI (XO (XO (XO XH))))))))))))))))),
+    (Zpos (XI (XO (XO (XI (XI (XO (XI (XO (XO (XO (XI (XI (XI (XO (XO (XO
+    XH)))))))))))))))))), Z0) :: ((((Zpos (XO (XO (XO (XO (XI (XO (XI (XO (XI
+    (XO (XI (XI (XI (XO (XO (XO XH))))))))))))))))), (Zpos (XI (XO (XO (XI
+    (XI (XO (XI (XO (XI (XO (XI (XI (XI (XO (XO (XO XH)))))))))))))))))),
+    Z0) :: ((((Zpos (XO (XO (XO (XO (XO (XI (XO (XI (XI (XO (XI (XI (XI (XO
+    (XO (XO XH))))))))))))))))), (Zpos (XI (XO (XO (XI (XO (XI (XO (XI (XI
+    (XO (XI (XI (XI (XO (XO (XO XH)))))))))))))))))), Z0) :: ((((Zpos (XO (XO
+    (XO (XO (XI (XO (XI (XO (XI (XI (XI (XI (XI (XO (XO (XO
+    XH))))))))))))))))), (Zpos (XI (XO (XO (XI (XI (XO (XI (XO (XI (XI (XI
+    (XI (XI (XO (XO (XO XH)))))))))))))))))), Z0) :: ((((Zpos (XO (XO (XO (XO
+    (XO (XI (XI (XO (XO (XI (XO (XI (XO (XI (XI (XO XH))))))))))))))))),
+    (Zpos (XI (XO (XO (XI (XO (XI (XI (XO (XO (XI (XO (XI (XO (XI (XI (XO
+    XH)))))))))))))))))), Z0) :: ((((Zpos (XO (XO (XO (XO (XO (XO (XI (XI (XO
+    (XI (XO (XI (XO (XI (XI (XO XH))))))))))))))))), (Zpos (XI (XO (XO (XI
+    (XO (XO (XI (XI (XO (XI (XO (XI (XO (XI (XI (XO XH)))))))))))))))))),
+    Z0) :: ((((Zpos (XO (XO (XO (XO (XI (XO (XI (XO (XI (XI (XO (XI (XO (XI
+    (XI (XO XH))))))))))))))))), (Zpos (XI (XO (XO (XI (XI (XO (XI (XO (XI
+    (XI (XO (XI (XO (XI (XI (XO XH)))))))))))))))))), Z0) :: ((((Zpos (XO (XI
+    (XI (XI (XO (XO (XI (XI (XI (XI (XI (XO (XI (XO (XI (XI
+    XH))))))))))))))))), (Zpos (XI (XI (XI (XO (XI (XO (XI (XI (XI (XI (XI
+    (XO (XI (XO (XI (XI XH)))))))))))))))))), Z0) :: ((((Zpos (XO (XO (XO (XI
+    (XI (XO (XI (XI (XI (XI (XI (XO (XI (XO (XI (XI XH))))))))))))))))),
+    (Zpos (XI (XO (XO (XO (XO (XI (XI (XI (XI (XI (XI (XO (XI (XO (XI (XI
+    XH)))))))))))))))))), Z0) :: ((((Zpos (XO (XI (XO (XO (XO (XI (XI (XI (XI
+    (XI (XI (XO (XI (XO (XI (XI XH))))))))))))))))), (Zpos (XI (XI (XO (XI
+    (XO (XI (XI (XI (XI (XI (XI (XO (XI (XO (XI (XI XH)))))))))))))))))),
+    Z0) :: ((((Zpos (XO (XO (XI (XI (XO (XI (XI (XI (XI (XI (XI (XO (XI (XO
+    (XI (XI XH))))))))))))))))), (Zpos (XI (XO (XI (XO (XI (XI (XI (XI (XI
+    (XI (XI (XO (XI (XO (XI (XI XH)))))))))))))))))), Z0) :: ((((Zpos (XO (XI
+    (XI (XO (XI (XI (XI (XI (XI (XI (XI (XO (XI (XO (XI (XI
+    XH))))))))))))))))), (Zpos (XI (XI (XI (XI (XI (XI (XI (XI (XI (XI (XI
+    (XO (XI (XO (XI (XI XH)))))))))))))))))), Z0) :: ((((Zpos (XO (XO (XO (XO
+    (XO (XO (XI (XO (XI (XO (XO (XO (XO (XI (XI (XI XH))))))))))))))))),
+    (Zpos (XI (XO (XO (XI (XO (XO (XI (XO (XI (XO (XO (XO (XO (XI (XI (XI
+    XH)))))))))))))))))), Z0) :: ((((Zpos (XO (XO (XO (XO (XI (XI (XI (XI (XO
+    (XI (XO (XO (XO (XI (XI (XI XH))))))))))))))))), (Zpos (XI (XO (XO (XI
+    (XI (XI (XI (XI (XO (XI (XO (XO (XO (XI (XI (XI XH)))))))))))))))))),
+    Z0) :: ((((Zpos (XO (XO (XO (XO (XI (XI (XI (XI (XO (XO (XI (XO (XO (XI
+    (XI (XI XH))))))))))))))))), (Zpos (XI (XO (XO (XI (XI (XI (XI (XI (XO
+    (XO (XI (XO (XO (XI (XI (XI XH)))))))))))))))))), Z0) :: ((((Zpos (XO (XO
+    (XO (XO (XI (XO (XI (XO (XI (XO (XO (XI (XO (XI (XI (XI
+    XH))))))))))))))))), (Zpos (XI (XO (XO (XI (XI (XO (XI (XO (XI (XO (XO
+    (XI (XO (XI (XI (XI XH)))))))))))))))))), Z0) :: ((((Zpos (XO (XO (XO (XO
+    (XI (XI (XI (XI (XI (XI (XO (XI (XI (XI (XI (XI XH))))))))))))))))),
+    (Zpos (XI (XO (XO (XI (XI (XI (XI (XI (XI (XI (XO (XI (XI (XI (XI (XI
+    XH)))))))))))))))))),
+    Z0) :: [])))))))))))))))))))))))))))))))))))))))))))))))))))))))))))))))))))
+
+(** val int_max_str_digits : z **)
+
+let int_max_str_digits =
+  Zpos (XO (XO (XI (XI (XO (XO (XI (XI (XO (XO (XO (XO XH))))))))))))
+
+type ustr = z list
+
+(** val in_ranges : z -> (z * z) list -> bool **)
+
+let rec in_ranges c = function
+| [] -> false
+| p :: t0 ->
+  let (lo, hi) = p in
+  if (&&) (Z.leb lo c) (Z.leb c hi) then true else in_ranges c t0
+
+(** val digit_in : z -> ((z * z) * z) list -> z option **)
+
+let rec digit_in c = function
+| [] -> None
+| p :: t0 ->
+  let (p0, v2) = p in
+  let (lo, hi) = p0 in
+  if (&&) (Z.leb lo c) (Z.leb c hi)
+  then Some (Z.add v2 (Z.sub c lo))
+  else digit_in c t0
+
+(** val is_space : z -> bool **)
+
+let is_space c =
+  in_ranges c space_ranges
+
+(** val is_linebreak : z -> bool **)
+
+let is_linebreak c =
+  in_ranges c linebreak_ranges
+
+(** val digit_value : z -> z option **)
+
+let digit_value c =
+  digit_in c digit_ranges
+
+(** val is_digit : z -> bool **)
+
+let is_digit c =
+  match digit_value c with
+  | Some _ -> true
+  | None -> false
+
+(** val ustr_eqb : ustr -> ustr -> bool **)
+
+let rec ustr_eqb a b =
+  match a with
+  | [] -> (match b with
+           | [] -> true
+           | _ :: _ -> false)
+  | x :: a' ->
+    (match b with
+     | [] -> false
+     | y :: b' -> (&&) (Z.eqb x y) (ustr_eqb a' b'))
+
+(** val starts_with : ustr -> ustr -> bool **)
+
+let rec starts_with p s =
+  match p with
+  | [] -> true
+  | x :: p' ->
+    (match s with
+     | [] -> false
+     | y :: s' -> (&&) (Z.eqb x y) (starts_with p' s'))
+
+(** val ends_with : ustr -> ustr -> bool **)
+
+let ends_with p s =
+  starts_with (rev0 p) (rev0 s)
+
+(** val lstrip_c : z -> ustr -> ustr **)
+
+let rec lstrip_c c s = match s with
+| [] -> []
+| x :: t0 -> if Z.eqb x c then lstrip_c c t0 else s
+
+(** val rstrip_c : z -> ustr -> ustr **)
+
+let rstrip_c c s =
+  rev0 (lstrip_c c (rev0 s))
+
+(** val strip_c : z -> ustr -> ustr **)
+
+let strip_c c s =
+  rstrip_c c (lstrip_c c s)
+
+(** val split_on_aux : z -> ustr -> ustr -> ustr list **)
+
+let rec split_on_aux c s cur =
+  match s with
+  | [] -> (rev0 cur) :: []
+  | x :: t0 ->
+    if Z.eqb x c
+    then (rev0 cur) :: (split_on_aux c t0 [])
+    else split_on_aux c t0 (x :: cur)
+
+(** val split_on : z -> ustr -> ustr list **)
+
+let split_on c s =
+  split_on_aux c s []
+
+(** val flush : ustr -> ustr list **)
+
+let flush cur = match cur with
+| [] -> []
+| _ :: _ -> (rev0 cur) :: []
+
+(** val split_ws_aux : ustr -> ustr -> ustr list **)
+
+let rec split_ws_aux s cur =
+  match s with
+  | [] -> flush cur
+  | c :: t0 ->
+    if is_space c
+    then app (flush cur) (split_ws_aux t0 [])
+    else split_ws_aux t0 (c :: cur)
+
+(** val split_ws : ustr -> ustr list **)
+
+let split_ws s =
+  split_ws_aux s []
+
+(** val splitlines_aux : ustr -> ustr -> ustr list **)
+
+let rec splitlines_aux s cur =
+  match s with
+  | [] -> flush cur
+  | c :: t0 ->
+    if is_linebreak c
+    then (rev0 cur) :: (match t0 with
+                        | [] -> []
+                        | d :: t' ->
+                          if (&&) (Z.eqb c (Zpos (XI (XO (XI XH)))))
+                               (Z.eqb d (Zpos (XO (XI (XO XH)))))
+                          then splitlines_aux t' []
+                          else splitlines_aux t0 [])
+    else splitlines_aux t0 (c :: cur)
+
+(** val splitlines : ustr -> ustr list **)
+
+let splitlines s =
+  splitlines_aux s []
+
+(** val cQUOTE : z **)
+
+let cQUOTE =
+  Zpos (XO (XI (XO (XO (XO XH)))))
+
+(** val cHASH : z **)
+
+let cHASH =
+  Zpos (XI (XI (XO (XO (XO XH)))))
+
+(** val cLPAR : z **)
+
+let cLPAR =
+  Zpos (XO (XO (XO (XI (XO XH)))))
+
+(** val cRPAR : z **)
+
+let cRPAR =
+  Zpos (XI (XO (XO (XI (XO XH)))))
+
+(** val cSTAR : z **)
+
+let cSTAR =
+  Zpos (XO (XI (XO (XI (XO XH)))))
+
+(** val cMINUS : z **)
+
+let cMINUS =
+  Zpos (XI (XO (XI (XI (XO XH)))))
+
+(** val cSLASH : z **)
+
+let cSLASH =
+  Zpos (XI (XI (XI (XI (XO XH)))))
+
+(** val cZERO : z **)
+
+let cZERO =
+  Zpos (XO (XO (XO (XO (XI XH)))))
+
+(** val cEQ : z **)
+
+let cEQ =
+  Zpos (XI (XO (XI (XI (XI XH)))))
+
+(** val cLBRK : z **)
+
+let cLBRK =
+  Zpos (XI (XI (XO (XI (XI (XO XH))))))
+
+(** val cRBRK : z **)
+
+let cRBRK =
+  Zpos (XI (XO (XI (XI (XI (XO XH))))))
+
+(** val cSP : z **)
+
+let cSP =
+  Zpos (XO (XO (XO (XO (XO XH)))))
+
+(** val all_digits : ustr -> bool **)
+
+let all_digits s = match s with
+| [] -> false
+| _ :: _ -> forallb is_digit s
+
+(** val is_sdigits : ustr -> bool **)
+
+let is_sdigits s = match s with
+| [] -> false
+| c :: r -> if Z.eqb c cMINUS then all_digits r else all_digits s
+
+(** val digit_or0 : z -> z **)
+
+let digit_or0 c =
+  match digit_value c with
+  | Some v -> v
+  | None -> Z0
+
+(** val int_of_digits : ustr -> z **)
+
+let int_of_digits s =
+  fold_left (fun acc c ->
+    Z.add (Z.mul acc (Zpos (XO (XI (XO XH))))) (digit_or0 c)) s Z0
+
+(** val py_int : ustr -> z res **)
+
+let py_int s = match s with
+| [] ->
+  let neg = false in
+  if Z.ltb int_max_str_digits (Z.of_nat (length s))
+  then Raise ValueError
+  else Ok (if neg then Z.opp (int_of_digits s) else int_of_digits s)
+| c :: r ->
+  if Z.eqb c cMINUS
+  then let neg = true in
+       if Z.ltb int_max_str_digits (Z.of_nat (length r))
+       then Raise ValueError
+       else Ok (if neg then Z.opp (int_of_digits r) else int_of_digits r)
+  else let neg = false in
+       if Z.ltb int_max_str_digits (Z.of_nat (length s))
+       then Raise ValueError
+       else Ok (if neg then Z.opp (int_of_digits s) else int_of_digits s)
+
+(** val p_int : ustr -> z res **)
+
+let p_int s =
+  match py_int s with
+  | Ok a -> Ok a
+  | Raise e ->
+    (match e with
+     | ValueError -> Raise ElectionProfileError
+     | x -> Raise x)
+
+(** val zmem : z -> z list -> bool **)
+
+let rec zmem c = function
+| [] -> false
+| x :: t0 -> if Z.eqb x c then true else zmem c t0
+
+(** val zset_add : z -> z list -> z list **)
+
+let rec zset_add c l = match l with
+| [] -> c :: []
+| x :: t0 ->
+  if Z.ltb c x then c :: l else if Z.eqb c x then l else x :: (zset_add c t0)
+
+(** val zmap_set : z -> 'a1 -> (z * 'a1) list -> (z * 'a1) list **)
+
+let rec zmap_set k v l = match l with
+| [] -> (k, v) :: []
+| p :: t0 ->
+  let (k', v') = p in
+  if Z.ltb k k'
+  then (k, v) :: l
+  else if Z.eqb k k' then (k, v) :: t0 else (k', v') :: (zmap_set k v t0)
+
+(** val smap_get : ustr -> (ustr * z) list -> z option **)
+
+let rec smap_get k = function
+| [] -> None
+| p :: t0 ->
+  let (k', v) = p in if ustr_eqb k' k then Some v else smap_get k t0
+
+(** val smem : ustr -> ustr list -> bool **)
+
+let rec smem k = function
+| [] -> false
+| x :: t0 -> if ustr_eqb x k then true else smem k t0
+
+(** val has_dup : z list -> bool **)
+
+let rec has_dup = function
+| [] -> false
+| x :: t0 -> if zmem x t0 then true else has_dup t0
+
+type tk_act =
+| TYield
+| TSkip
+| TBreak
+
+(** val tok_step : ustr -> z -> bool -> (tk_act * z) * bool **)
+
+let tok_step t0 ic iq =
+  let iq1 =
+    if (&&) (Z.eqb ic Z0) (starts_with (cQUOTE :: []) t0) then true else iq
+  in
+  if (&&) iq1 (ends_with (cQUOTE :: []) t0)
+  then ((TYield, ic), false)
+  else let ic1 =
+         if (&&) (negb iq1) (starts_with (cSLASH :: (cSTAR :: [])) t0)
+         then Z.add ic (Zpos XH)
+         else ic
+       in
+       if negb (Z.eqb ic1 Z0)
+       then ((TSkip,
+              (if ends_with (cSTAR :: (cSLASH :: [])) t0
+               then Z.sub ic1 (Zpos XH)
+               else ic1)), iq1)
+       else if (&&) (negb iq1) (starts_with (cHASH :: []) t0)
+            then ((TBreak, ic1), iq1)
+            else ((TYield, ic1), iq1)
+
+(** val tok_line : ustr list -> z -> bool -> (ustr list * z) * bool **)
+
+let rec tok_line toks ic iq =
+  match toks with
+  | [] -> (([], ic), iq)
+  | t0 :: rest ->
+    let (p, iq') = tok_step t0 ic iq in
+    let (t1, ic') = p in
+    (match t1 with
+     | TYield ->
+       let (p0, iq'') = tok_line rest ic' iq' in
+       let (out, ic'') = p0 in (((t0 :: out), ic''), iq'')
+     | TSkip -> tok_line rest ic' iq'
+     | TBreak -> (([], ic'), iq'))
+
+(** val tok_lines : ustr list -> z -> bool -> ustr list **)
+
+let rec tok_lines lines ic iq =
+  match lines with
+  | [] -> []
+  | l :: ls ->
+    let (p, iq') = tok_line (split_ws l) ic iq in
+    let (out, ic') = p in app out (tok_lines ls ic' iq')
+
+(** val tokenize : ustr -> ustr list **)
+
+let tokenize text =
+  tok_lines (splitlines text) Z0 false
+
+type 'a pres =
+| POk of 'a
+| PStop
+| PRaise of exn
+
+(** val pbind : 'a1 pres -> ('a1 -> 'a2 pres) -> 'a2 pres **)
+
+let pbind r f =
+  match r with
+  | POk a -> f a
+  | PStop -> PStop
+  | PRaise e -> PRaise e
+
+(** val lift : 'a1 res -> 'a1 pres **)
+
+let lift = function
+| Ok a -> POk a
+| Raise e -> PRaise e
+
+(** val ePE : 'a1 pres **)
+
+let ePE =
+  PRaise ElectionProfileError
+
+type pst = { s_nCand : z; s_nSeats : z; s_withdrawn : z list;
+             s_undeclared : z list; s_tieOrder : (z * z) list;
+             s_nickName : (z * ustr) list; s_nickCid : (ustr * z) list;
+             s_options : ustr list; s_nBallots : z;
+             s_lines : (z * z list) list; s_linesEq : (z * z list list) list;
+             s_ballotIDs : ustr list }
+
+(** val init_pst : z -> z -> pst **)
+
+let init_pst nc ns =
+  { s_nCand = nc; s_nSeats = ns; s_withdrawn = []; s_undeclared = [];
+    s_tieOrder = []; s_nickName = []; s_nickCid = []; s_options = [];
+    s_nBallots = Z0; s_lines = []; s_linesEq = []; s_ballotIDs = [] }
+
+(** val set_withdrawn : pst -> z list -> pst **)
+
+let set_withdrawn st w =
+  { s_nCand = st.s_nCand; s_nSeats = st.s_nSeats; s_withdrawn = w;
+    s_undeclared = st.s_undeclared; s_tieOrder = st.s_tieOrder; s_nickName =
+    st.s_nickName; s_nickCid = st.s_nickCid; s_options = st.s_options;
+    s_nBallots = st.s_nBallots; s_lines = st.s_lines; s_linesEq =
+    st.s_linesEq; s_ballotIDs = st.s_ballotIDs }
+
+(** val set_undeclared : pst -> z list -> pst **)
+
+let set_undeclared st u =
+  { s_nCand = st.s_nCand; s_nSeats = st.s_nSeats; s_withdrawn =
+    st.s_withdrawn; s_undeclared = u; s_tieOrder = st.s_tieOrder;
+    s_nickName = st.s_nickName; s_nickCid = st.s_nickCid; s_options =
+    st.s_options; s_nBallots = st.s_nBallots; s_lines = st.s_lines;
+    s_linesEq = st.s_linesEq; s_ballotIDs = st.s_ballotIDs }
+
+(** val set_tie : pst -> (z * z) list -> pst **)
+
+let set_tie st t0 =
+  { s_nCand = st.s_nCand; s_nSeats = st.s_nSeats; s_withdrawn =
+    st.s_withdrawn; s_undeclared = st.s_undeclared; s_tieOrder = t0;
+    s_nickName = st.s_nickName; s_nickCid = st.s_nickCid; s_options =
+    st.s_options; s_nBallots = st.s_nBallots; s_lines = st.s_lines;
+    s_linesEq = st.s_linesEq; s_ballotIDs = st.s_ballotIDs }
+
+(** val set_nick : pst -> (z * ustr) list -> (ustr * z) list -> pst **)
+
+let set_nick st nn nc =
+  { s_nCand = st.s_nCand; s_nSeats = st.s_nSeats; s_withdrawn =
+    st.s_withdrawn; s_undeclared = st.s_undeclared; s_tieOrder =
+    st.s_tieOrder; s_nickName = nn; s_nickCid = nc; s_options = st.s_options;
+    s_nBallots = st.s_nBallots; s_lines = st.s_lines; s_linesEq =
+    st.s_linesEq; s_ballotIDs = st.s_ballotIDs }
+
+(** val set_options : pst -> ustr list -> pst **)
+
+let set_options st o =
+  { s_nCand = st.s_nCand; s_nSeats = st.s_nSeats; s_withdrawn =
+    st.s_withdrawn; s_undeclared = st.s_undeclared; s_tieOrder =
+    st.s_tieOrder; s_nickName = st.s_nickName; s_nickCid = st.s_nickCid;
+    s_options = o; s_nBallots = st.s_nBallots; s_lines = st.s_lines;
+    s_linesEq = st.s_linesEq; s_ballotIDs = st.s_ballotIDs }
+
+(** val add_line : pst -> z -> z list -> pst **)
+
+let add_line st m r =
+  { s_nCand = st.s_nCand; s_nSeats = st.s_nSeats; s_withdrawn =
+    st.s_withdrawn; s_undeclared = st.s_undeclared; s_tieOrder =
+    st.s_tieOrder; s_nickName = st.s_nickName; s_nickCid = st.s_nickCid;
+    s_options = st.s_options; s_nBallots = (Z.add st.s_nBallots m); s_lines =
+    (app st.s_lines ((m, r) :: [])); s_linesEq = st.s_linesEq; s_ballotIDs =
+    st.s_ballotIDs }
+
+(** val add_lineEq : pst -> z -> z list list -> pst **)
+
+let add_lineEq st m r =
+  { s_nCand = st.s_nCand; s_nSeats = st.s_nSeats; s_withdrawn =
+    st.s_withdrawn; s_undeclared = st.s_undeclared; s_tieOrder =
+    st.s_tieOrder; s_nickName = st.s_nickName; s_nickCid = st.s_nickCid;
+    s_options = st.s_options; s_nBallots = (Z.add st.s_nBallots m); s_lines =
+    st.s_lines; s_linesEq = (app st.s_linesEq ((m, r) :: [])); s_ballotIDs =
+    st.s_ballotIDs }
+
+(** val add_ballotID : pst -> ustr -> pst **)
+
+let add_ballotID st b =
+  { s_nCand = st.s_nCand; s_nSeats = st.s_nSeats; s_withdrawn =
+    st.s_withdrawn; s_undeclared = st.s_undeclared; s_tieOrder =
+    st.s_tieOrder; s_nickName = st.s_nickName; s_nickCid = st.s_nickCid;
+    s_options = st.s_options; s_nBallots = st.s_nBallots; s_lines =
+    st.s_lines; s_linesEq = st.s_linesEq; s_ballotIDs =
+    (b :: st.s_ballotIDs) }
+
+(** val getCid : pst -> ustr -> z res **)
+
+let getCid st nick =
+  if all_digits nick
+  then bind (p_int nick) (fun n0 ->
+         if (&&) (Z.ltb Z0 n0) (Z.leb n0 st.s_nCand)
+         then Ok n0
+         else Raise ElectionProfileError)
+  else (match st.s_nickCid with
+        | [] -> Raise ElectionProfileError
+        | _ :: _ ->
+          (match smap_get nick st.s_nickCid with
+           | Some c -> Ok c
+           | None -> Raise ElectionProfileError))
+
+(** val map_res : ('a1 -> 'a2 res) -> 'a1 list -> 'a2 list res **)
+
+let rec map_res f = function
+| [] -> Ok []
+| x :: t0 ->
+  bind (f x) (fun y -> bind (map_res f t0) (fun ys -> Ok (y :: ys)))
+
+(** val tie_loop :
+    pst -> ustr list -> z -> (z * z) list -> (z * z) list res **)
+
+let rec tie_loop st l o acc =
+  match l with
+  | [] -> Ok acc
+  | t0 :: rest ->
+    bind (getCid st t0) (fun cid0 ->
+      tie_loop st rest (Z.add o (Zpos XH))
+        (zmap_set cid0 (Z.add o (Zpos XH)) acc))
+
+(** val option_tie : pst -> ustr list -> pst res **)
+
+let option_tie st l =
+  bind (tie_loop st l Z0 []) (fun acc ->
+    if Z.eqb (Z.of_nat (length acc)) st.s_nCand
+    then Ok (set_tie st acc)
+    else Raise ElectionProfileError)
+
+(** val nick_loop :
+    ustr list -> z -> (z * ustr) list -> (ustr * z) list -> ((z * ustr)
+    list * (ustr * z) list) res **)
+
+let rec nick_loop l cid0 nn nc =
+  match l with
+  | [] -> Ok (nn, nc)
+  | nick :: rest ->
+    (match smap_get nick nc with
+     | Some _ -> Raise ElectionProfileError
+     | None ->
+       nick_loop rest (Z.add cid0 (Zpos XH))
+         (app nn (((Z.add cid0 (Zpos XH)), nick) :: [])) ((nick,
+         (Z.add cid0 (Zpos XH))) :: nc))
+
+(** val option_nick : pst -> ustr list -> pst res **)
+
+let option_nick st l =
+  if negb (Z.eqb (Z.of_nat (length l)) st.s_nCand)
+  then Raise ElectionProfileError
+  else bind (nick_loop l Z0 [] []) (fun x ->
+         let (nn, nc) = x in Ok (set_nick st nn nc))
+
+(** val cidset_loop : pst -> ustr list -> z list -> z list res **)
+
+let rec cidset_loop st l acc =
+  match l with
+  | [] -> Ok acc
+  | t0 :: rest ->
+    bind (getCid st t0) (fun cid0 ->
+      if zmem cid0 acc
+      then Raise ElectionProfileError
+      else cidset_loop st rest (zset_add cid0 acc))
+
+(** val s_tie : z list **)
+
+let s_tie =
+  (Zpos (XO (XO (XI (XO (XI (XI XH))))))) :: ((Zpos (XI (XO (XO (XI (XO (XI
+    XH))))))) :: ((Zpos (XI (XO (XI (XO (XO (XI XH))))))) :: []))
+
+(** val s_nick : z list **)
+
+let s_nick =
+  (Zpos (XO (XI (XI (XI (XO (XI XH))))))) :: ((Zpos (XI (XO (XO (XI (XO (XI
+    XH))))))) :: ((Zpos (XI (XI (XO (XO (XO (XI XH))))))) :: ((Zpos (XI (XI
+    (XO (XI (XO (XI XH))))))) :: [])))
+
+(** val s_droop : z list **)
+
+let s_droop =
+  (Zpos (XO (XO (XI (XO (XO (XI XH))))))) :: ((Zpos (XO (XI (XO (XO (XI (XI
+    XH))))))) :: ((Zpos (XI (XI (XI (XI (XO (XI XH))))))) :: ((Zpos (XI (XI
+    (XI (XI (XO (XI XH))))))) :: ((Zpos (XO (XO (XO (XO (XI (XI
+    XH))))))) :: []))))
+
+(** val s_withdrawn_kw : z list **)
+
+let s_withdrawn_kw =
+  (Zpos (XI (XI (XI (XO (XI (XI XH))))))) :: ((Zpos (XI (XO (XO (XI (XO (XI
+    XH))))))) :: ((Zpos (XO (XO (XI (XO (XI (XI XH))))))) :: ((Zpos (XO (XO
+    (XO (XI (XO (XI XH))))))) :: ((Zpos (XO (XO (XI (XO (XO (XI
+    XH))))))) :: ((Zpos (XO (XI (XO (XO (XI (XI XH))))))) :: ((Zpos (XI (XO
+    (XO (XO (XO (XI XH))))))) :: ((Zpos (XI (XI (XI (XO (XI (XI
+    XH))))))) :: ((Zpos (XO (XI (XI (XI (XO (XI XH))))))) :: []))))))))
+
+(** val s_undeclared_kw : z list **)
+
+let s_undeclared_kw =
+  (Zpos (XI (XO (XI (XO (XI (XI XH))))))) :: ((Zpos (XO (XI (XI (XI (XO (XI
+    XH))))))) :: ((Zpos (XO (XO (XI (XO (XO (XI XH))))))) :: ((Zpos (XI (XO
+    (XI (XO (XO (XI XH))))))) :: ((Zpos (XI (XI (XO (XO (XO (XI
+    XH))))))) :: ((Zpos (XO (XO (XI (XI (XO (XI XH))))))) :: ((Zpos (XI (XO
+    (XO (XO (XO (XI XH))))))) :: ((Zpos (XO (XI (XO (XO (XI (XI
+    XH))))))) :: ((Zpos (XI (XO (XI (XO (XO (XI XH))))))) :: ((Zpos (XO (XO
+    (XI (XO (XO (XI XH))))))) :: [])))))))))
+
+(** val apply_option : pst -> ustr -> ustr list -> pst res **)
+
+let apply_option st name l =
+  if ustr_eqb name s_tie
+  then option_tie st l
+  else if ustr_eqb name s_nick
+       then option_nick st l
+       else if ustr_eqb name s_droop
+            then Ok (set_options st (app st.s_options l))
+            else if ustr_eqb name s_withdrawn_kw
+                 then bind (cidset_loop st l st.s_withdrawn) (fun w -> Ok
+                        (set_withdrawn st w))
+                 else if ustr_eqb name s_undeclared_kw
+                      then bind (cidset_loop st l st.s_undeclared) (fun u ->
+                             Ok (set_undeclared st u))
+                      else Raise ElectionProfileError
+
+type omode =
+| ONone
+| OCollect of ustr * ustr list
+
+(** val opts : ustr list -> pst -> omode -> (pst * ustr list) pres **)
+
+let rec opts toks st m =
+  match toks with
+  | [] -> PStop
+  | tok0 :: rest ->
+    (match m with
+     | ONone ->
+       if starts_with (cLBRK :: []) tok0
+       then let name = lstrip_c cLBRK tok0 in
+            if ends_with (cRBRK :: []) name
+            then pbind (lift (apply_option st (rstrip_c cRBRK name) []))
+                   (fun st' -> opts rest st' ONone)
+            else opts rest st (OCollect (name, []))
+       else if starts_with (cLPAR :: []) tok0
+            then POk (st, toks)
+            else if is_sdigits tok0
+                 then pbind (lift (p_int tok0)) (fun v ->
+                        let wd = Z.opp v in
+                        if Z.leb wd Z0
+                        then POk (st, toks)
+                        else if Z.ltb st.s_nCand wd
+                             then ePE
+                             else if zmem wd st.s_withdrawn
+                                  then ePE
+                                  else opts rest
+                                         (set_withdrawn st
+                                           (zset_add wd st.s_withdrawn)) ONone)
+                 else ePE
+     | OCollect (name, acc) ->
+       let acc' =
+         if ustr_eqb tok0 (cRBRK :: [])
+         then acc
+         else app acc ((rstrip_c cRBRK tok0) :: [])
+       in
+       if ends_with (cRBRK :: []) tok0
+       then pbind (lift (apply_option st name acc')) (fun st' ->
+              opts rest st' ONone)
+       else opts rest st (OCollect (name, acc')))
+
+(** val array_max : z -> z **)
+
+let array_max nCand =
+  if Z.ltb nCand (Zpos (XO (XO (XO (XO (XO (XO (XO (XO XH)))))))))
+  then Zpos (XI (XI (XI (XI (XI (XI (XI XH)))))))
+  else if Z.ltb nCand (Zpos (XO (XO (XO (XO (XO (XO (XO (XO (XO (XO (XO (XO
+            (XO (XO (XO (XO XH)))))))))))))))))
+       then Zpos (XI (XI (XI (XI (XI (XI (XI (XI (XI (XI (XI (XI (XI (XI (XI
+              XH)))))))))))))))
+       else Zpos (XI (XI (XI (XI (XI (XI (XI (XI (XI (XI (XI (XI (XI (XI (XI
+              (XI (XI (XI (XI (XI (XI (XI (XI (XI (XI (XI (XI (XI (XI (XI (XI
+              (XI (XI (XI (XI (XI (XI (XI (XI (XI (XI (XI (XI (XI (XI (XI (XI
+              (XI (XI (XI (XI (XI (XI (XI (XI (XI (XI (XI (XI (XI (XI (XI (XI
+              XH)))))))))))))))))))))))))))))))))))))))))))))))))))))))))))))))
+
+(** val ballot_line : pst -> z -> z list list -> pst res **)
+
+let ballot_line st m ranking =
+  let ranks1 = map (filter (fun c -> negb (zmem c st.s_withdrawn))) ranking in
+  let equal_rank =
+    existsb (fun r -> Z.ltb (Zpos XH) (Z.of_nat (length r))) ranks1
+  in
+  let ranks2 =
+    filter (fun r -> match r with
+                     | [] -> false
+                     | _ :: _ -> true) ranks1
+  in
+  (match ranks2 with
+   | [] -> Ok st
+   | _ :: _ ->
+     if equal_rank
+     then Ok (add_lineEq st m ranks2)
+     else let flat = map (fun r -> hd Z0 r) ranks2 in
+          if existsb (fun c ->
+               (||) (Z.ltb c Z0) (Z.ltb (array_max st.s_nCand) c)) flat
+          then Raise OverflowError
+          else Ok (add_line st m flat))
+
+(** val finish_bid : pst -> ustr -> pst res **)
+
+let finish_bid st bid =
+  let b = strip_c cSP (rstrip_c cRPAR (lstrip_c cLPAR bid)) in
+  if smem b st.s_ballotIDs
+  then Raise ElectionProfileError
+  else Ok (add_ballotID st b)
+
+type bmode =
+| BHead
+| BBid of ustr
+| BRank of z * z list list
+
+(** val ballots0 : ustr list -> pst -> bmode -> (pst * ustr list) pres **)
+
+let rec ballots0 toks st m =
+  match toks with
+  | [] -> PStop
+  | tok0 :: rest ->
+    (match m with
+     | BHead ->
+       if starts_with (cLPAR :: []) tok0
+       then if ends_with (cRPAR :: []) tok0
+            then pbind (lift (finish_bid st tok0)) (fun st' ->
+                   ballots0 rest st' (BRank ((Zpos XH), [])))
+            else ballots0 rest st (BBid tok0)
+       else if all_digits tok0
+            then pbind (lift (p_int tok0)) (fun mult ->
+                   if Z.eqb mult Z0
+                   then POk (st, rest)
+                   else ballots0 rest st (BRank (mult, [])))
+            else ePE
+     | BBid bid ->
+       let bid' = app bid (cSP :: tok0) in
+       if ends_with (cRPAR :: []) bid'
+       then pbind (lift (finish_bid st bid')) (fun st' ->
+              ballots0 rest st' (BRank ((Zpos XH), [])))
+       else ballots0 rest st (BBid bid')
+     | BRank (mult, ranking) ->
+       if ustr_eqb tok0 (cZERO :: [])
+       then pbind
+              (lift
+                (match ranking with
+                 | [] -> Ok st
+                 | _ :: _ -> ballot_line st mult ranking)) (fun st' ->
+              ballots0 rest st' BHead)
+       else pbind (lift (map_res (getCid st) (split_on cEQ tok0)))
+              (fun cids ->
+              ballots0 rest st (BRank (mult, (app ranking (cids :: []))))))
+
+(** val names0 :
+    ustr list -> z -> z -> ustr option -> (z * ustr) list -> ((z * ustr)
+    list * ustr list) pres **)
+
+let rec names0 toks nCand cid0 cur acc =
+  match cur with
+  | Some name ->
+    (match toks with
+     | [] -> PStop
+     | t0 :: rest ->
+       let name' = app name (cSP :: t0) in
+       if ends_with (cQUOTE :: []) name'
+       then names0 rest nCand (Z.add cid0 (Zpos XH)) None
+              (app acc ((cid0, (strip_c cQUOTE name')) :: []))
+       else names0 rest nCand cid0 (Some name') acc)
+  | None ->
+    if Z.ltb nCand cid0
+    then POk (acc, toks)
+    else (match toks with
+          | [] -> ePE
+          | t0 :: rest ->
+            if negb (starts_with (cQUOTE :: []) t0)
+            then ePE
+            else if ends_with (cQUOTE :: []) t0
+                 then names0 rest nCand (Z.add cid0 (Zpos XH)) None
+                        (app acc ((cid0, (strip_c cQUOTE t0)) :: []))
+                 else names0 rest nCand cid0 (Some t0) acc)
+
+(** val read_quoted : ustr list -> ustr -> (ustr * ustr list) option **)
+
+let rec read_quoted toks s =
+  if ends_with (cQUOTE :: []) s
+  then Some (s, toks)
+  else (match toks with
+        | [] -> None
+        | t0 :: rest -> read_quoted rest (app s (cSP :: t0)))
+
+(** val unquote : ustr -> ustr **)
+
+let unquote s =
+  strip_c cSP (strip_c cQUOTE s)
+
+(** val opt_string : ustr list -> (ustr * ustr list) option pres **)
+
+let opt_string = function
+| [] -> POk None
+| tok0 :: rest ->
+  if negb (starts_with (cQUOTE :: []) tok0)
+  then POk None
+  else (match read_quoted rest tok0 with
+        | Some p -> let (s, rest') = p in POk (Some ((unquote s), rest'))
+        | None -> ePE)
+
+type profile0 = { p_nCand : z; p_nSeats : z; p_title : ustr;
+                  p_source : ustr option; p_comment : ustr option;
+                  p_nBallots : z; p_eligible : z list; p_withdrawn : 
+                  z list; p_undeclared : z list;
+                  p_candName : (z * ustr) list; p_candOrder : (z * z) list;
+                  p_lines : (z * z list) list;
+                  p_linesEq : (z * z list list) list;
+                  p_tieOrder : (z * z) list; p_nickName : (z * ustr) list;
+                  p_options : ustr list }
+
+type parsed = { r_st : pst; r_names : (z * ustr) list; r_title : ustr;
+                r_source : ustr option; r_comment : ustr option }
+
+(** val parse_tail : pst -> ustr list -> parsed pres **)
+
+let parse_tail st toks =
+  if (&&) (match st.s_ballotIDs with
+           | [] -> false
+           | _ :: _ -> true)
+       (negb (Nat.eqb (length st.s_ballotIDs) (length st.s_lines)))
+  then ePE
+  else pbind (names0 toks st.s_nCand (Zpos XH) None []) (fun pat ->
+         let (nm, toks1) = pat in
+         (match toks1 with
+          | [] -> PStop
+          | tok0 :: rest ->
+            if negb (starts_with (cQUOTE :: []) tok0)
+            then ePE
+            else (match read_quoted rest tok0 with
+                  | Some p ->
+                    let (s, toks2) = p in
+                    let title = unquote s in
+                    pbind (opt_string toks2) (fun so ->
+                      match so with
+                      | Some p0 ->
+                        let (src, toks3) = p0 in
+                        pbind (opt_string toks3) (fun co ->
+                          match co with
+                          | Some p1 ->
+                            let (com, _) = p1 in
+                            POk { r_st = st; r_names = nm; r_title = title;
+                            r_source = (Some src); r_comment = (Some com) }
+                          | None ->
+                            POk { r_st = st; r_names = nm; r_title = title;
+                              r_source = (Some src); r_comment = None })
+                      | None ->
+                        POk { r_st = st; r_names = nm; r_title = title;
+                          r_source = None; r_comment = None })
+                  | None -> ePE)))
+
+(** val blt_parse_raw : ustr list -> parsed pres **)
+
+let blt_parse_raw = function
+| [] -> PStop
+| t1 :: r1 ->
+  if negb (all_digits t1)
+  then ePE
+  else pbind (lift (p_int t1)) (fun nc ->
+         match r1 with
+         | [] -> PStop
+         | t2 :: r2 ->
+           if negb (all_digits t2)
+           then ePE
+           else pbind (lift (p_int t2)) (fun ns ->
+                  pbind (opts r2 (init_pst nc ns) ONone) (fun pat ->
+                    let (st1, toks1) = pat in
+                    pbind (ballots0 toks1 st1 BHead) (fun pat0 ->
+                      let (st2, toks2) = pat0 in parse_tail st2 toks2))))
+
+(** val blt_parse : ustr list -> parsed res **)
+
+let blt_parse toks =
+  match blt_parse_raw toks with
+  | POk r -> Ok r
+  | PStop -> Raise ElectionProfileError
+  | PRaise e -> Raise e
+
+(** val validate : pst -> z list -> unit res **)
+
+let validate st eligible =
+  let ne = Z.of_nat (length eligible) in
+  if (||) (Z.eqb st.s_nSeats Z0) (Z.ltb ne st.s_nSeats)
+  then Raise ElectionProfileError
+  else if Z.ltb st.s_nBallots ne
+       then Raise ElectionProfileError
+       else if existsb (fun bl -> has_dup (snd bl)) st.s_lines
+            then Raise ElectionProfileError
+            else if existsb (fun bl -> has_dup (concat (snd bl))) st.s_linesEq
+                 then Raise ElectionProfileError
+                 else Ok ()
+
+(** val ustr_of_string : string -> ustr **)
+
+let ustr_of_string s =
+  map (fun a -> Z.of_N (n_of_ascii a))
+    ((fun s ->
+      Array.to_list (Array.init (String.length s) (fun i -> s.[i])))
+      s)
+
+(** val ustr_of_Z : z -> ustr **)
+
+let ustr_of_Z z0 =
+  ustr_of_string (string_of_Z z0)
+
+(** val cids_upto : z -> z list **)
+
+let cids_upto n0 =
+  map Z.of_nat (seq (S O) (Z.to_nat n0))
+
+(** val finish : parsed -> profile0 res **)
+
+let finish r =
+  let st = r.r_st in
+  let eligible =
+    filter (fun c -> negb (zmem c st.s_withdrawn)) (map fst r.r_names)
+  in
+  bind (validate st eligible) (fun _ ->
+    let nick =
+      match st.s_nickCid with
+      | [] -> map (fun c -> (c, (ustr_of_Z c))) (cids_upto st.s_nCand)
+      | _ :: _ -> st.s_nickName
+    in
+    let tie =
+      match st.s_tieOrder with
+      | [] -> map (fun c -> (c, c)) (cids_upto st.s_nCand)
+      | _ :: _ -> st.s_tieOrder
+    in
+    Ok { p_nCand = st.s_nCand; p_nSeats = st.s_nSeats; p_title = r.r_title;
+    p_source = r.r_source; p_comment = r.r_comment; p_nBallots =
+    st.s_nBallots; p_eligible = eligible; p_withdrawn = st.s_withdrawn;
+    p_undeclared = st.s_undeclared; p_candName = r.r_names; p_candOrder =
+    (map (fun nm -> ((fst nm), (fst nm))) r.r_names); p_lines = st.s_lines;
+    p_linesEq = st.s_linesEq; p_tieOrder = tie; p_nickName = nick;
+    p_options = st.s_options })
+
+(** val parse_tokens : ustr list -> profile0 res **)
+
+let parse_tokens toks =
+  bind (blt_parse toks) finish
+
+(** val parse : ustr -> profile0 res **)
+
+let parse text = match text with
+| [] -> Raise ElectionProfileError
+| _ :: _ -> parse_tokens (tokenize text)
+
+(** val strip_bom : ustr -> ustr **)
+
+let strip_bom text = match text with
+| [] -> []
+| c :: t0 ->
+  if Z.eqb c (Zpos (XI (XI (XI (XI (XI (XI (XI (XI (XO (XI (XI (XI (XI (XI
+       (XI XH))))))))))))))))
+  then t0
+  else text
+
+(** val parse_file : ustr -> profile0 res **)
+
+let parse_file text =
+  parse (strip_bom text)
+
+(** val nl : string **)
+
+let nl =
+  (* If this appears, you're using String internals. Please don't *)
+  (fun (c, s) -> String.make 1 c ^ s)
+
+    ((ascii_of_nat (S (S (S (S (S (S (S (S (S (S O))))))))))), "")
+
+(** val show_zs : z list -> string **)
+
+let show_zs l =
+  fold_right (fun c acc -> (^) " " ((^) (string_of_Z c) acc)) "" l
+
+(** val show_opt : ustr option -> string **)
+
+let show_opt = function
+| Some s -> (^) " some" (show_zs s)
+| None -> " none"
+
+(** val show_lines : ('a1 -> string) -> 'a1 list -> string **)
+
+let show_lines f l =
+  fold_right (fun x acc -> (^) (f x) ((^) nl acc)) "" l
+
+(** val show_ranks : z list list -> string **)
+
+let show_ranks r =
+  fold_right (fun g acc -> (^) " |" ((^) (show_zs g) acc)) "" r
+
+(** val show_profile : profile0 -> string **)
+
+let show_profile p =
+  (^) "nCand "
+    ((^) (string_of_Z p.p_nCand)
+      ((^) nl
+        ((^) "nSeats "
+          ((^) (string_of_Z p.p_nSeats)
+            ((^) nl
+              ((^) "title"
+                ((^) (show_zs p.p_title)
+                  ((^) nl
+                    ((^) "source"
+                      ((^) (show_opt p.p_source)
+                        ((^) nl
+                          ((^) "comment"
+                            ((^) (show_opt p.p_comment)
+                              ((^) nl
+                                ((^) "nBallots "
+                                  ((^) (string_of_Z p.p_nBallots)
+                                    ((^) nl
+                                      ((^) "eligible"
+                                        ((^) (show_zs p.p_eligible)
+                                          ((^) nl
+                                            ((^) "withdrawn"
+                                              ((^) (show_zs p.p_withdrawn)
+                                                ((^) nl
+                                                  ((^) "undeclared"
+                                                    ((^)
+                                                      (show_zs p.p_undeclared)
+                                                      ((^) nl
+                                                        ((^)
+                                                          (show_lines
+                                                            (fun pat ->
+                                                            let (c, n0) = pat
+                                                            in
+                                                            (^) "name "
+                                                              ((^)
+                                                                (string_of_Z
+                                                                  c)
+                                                                ((^) " :"
+                                                                  (show_zs n0))))
+                                                            p.p_candName)
+                                                          ((^)
+                                                            (show_lines
+                                                              (fun pat ->
+                                                              let (c, o) = pat
+                                                              in
+                                                              (^) "order "
+                                                                ((^)
+                                                                  (string_of_Z
+                                                                    c)
+                                                                  ((^) " "
+                                                                    (string_of_Z
+                                                                    o))))
+                                                              p.p_candOrder)
+                                                            ((^)
+                                                              (show_lines
+                                                                (fun pat ->
+                                                                let (
+                                                                  m, r) = pat
+                                                                in
+                                                                (^) "ballot "
+                                                                  ((^)
+                                                                    (string_of_Z
+                                                                    m)
+                                                                    ((^) " :"
+                                                                    (show_zs
+                                                                    r))))
+                                                                p.p_lines)
+                                                              ((^)
+                                                                (show_lines
+                                                                  (fun pat ->
+                                                                  let (
+                                                                    m, r) =
+                                                                    pat
+                                                                  in
+                                                                  (^)
+                                                                    "eballot "
+                                                                    ((^)
+                                                                    (string_of_Z
+                                                                    m)
+                                                                    ((^) " :"
+                                                                    (show_ranks
+                                                                    r))))
+                                                                  p.p_linesEq)
+                                                                ((^)
+                                                                  (show_lines
+                                                                    (fun pat ->
+                                                                    let (
+                                                                    c, o) =
+                                                                    pat
+                                                                    in
+                                                                    (^)
+                                                                    "tie "
+                                                                    ((^)
+                                                                    (string_of_Z
+                                                                    c)
+                                                                    ((^) " "
+                                                                    (string_of_Z
+                                                                    o))))
+                                                                    p.p_tieOrder)
+                                                                  ((^)
+                                                                    (show_lines
+                                                                    (fun pat ->
+                                                                    let (
+                                                                    c, n0) =
+                                                                    pat
+                                                                    in
+                                                                    (^)
+                                                                    "nick "
+                                                                    ((^)
+                                                                    (string_of_Z
+                                                                    c)
+                                                                    ((^) " :"
+                                                                    (show_zs
+                                                                    n0))))
+                                                                    p.p_nickName)
+                                                                    ((^)
+                                                                    (show_lines
+                                                                    (fun o ->
+                                                                    (^)
+                                                                    "option"
+                                                                    (show_zs
+                                                                    o))
+                                                                    p.p_options)
+                                                                    "end")))))))))))))))))))))))))))))))))
+
+(** val show_parse : profile0 res -> string **)
+
+let show_parse = function
+| Ok p -> show_profile p
+| Raise e -> (^) "Raise " (exn_name e)
+
+(** val toks_zs : tok list -> z list **)
+
+let rec toks_zs = function
+| [] -> []
+| t0 :: t1 -> (match t0 with
+               | TI z0 -> z0 :: (toks_zs t1)
+               | TS _ -> toks_zs t1)
+
+(** val run_parse : tok list -> string **)
+
+let run_parse = function
+| [] -> "badparse"
+| t0 :: rest ->
+  (match t0 with
+   | TI z0 ->
+     (match z0 with
+      | Z0 -> show_parse (parse (toks_zs rest))
+      | Zpos p ->
+        (match p with
+         | XI _ -> "badparse"
+         | XO p0 ->
+           (match p0 with
+            | XH ->
+              (^)
+                (show_lines (fun t1 -> (^) "tok" (show_zs t1))
+                  (tokenize (toks_zs rest))) "end"
+            | _ -> "badparse")
+         | XH -> show_parse (parse_file (toks_zs rest)))
+      | Zneg _ -> "badparse")
+   | TS _ -> "badparse")
+
 (** val show_resZ : z res -> string **)
 
 let show_resZ = function
@@ -5643,6 +7072,216 @@ let run = function
                                    else "badcommand"
                               else "badcommand"
                     else "badcommand"
-               else "badcommand")
+               else if b1
+                    then "badcommand"
+                    else if b2
+                         then "badcommand"
+                         else if b3
+                              then if b4
+                                   then if b5
+                                        then if b6
+                                             then "badcommand"
+                                             else ((* If this appears, you're using String internals. Please don't *)
+ (fun f0 f1 s ->
+    let l = String.length s in
+    if l = 0 then f0 () else f1 (String.get s 0) (String.sub s 1 (l-1)))
+
+                                                     (fun _ ->
+                                                     "badcommand")
+                                                     (fun a0 s1 ->
+                                                     (* If this appears, you're using Ascii internals. Please don't *)
+ (fun f c ->
+  let n = Char.code c in
+  let h i = (n land (1 lsl i)) <> 0 in
+  f (h 0) (h 1) (h 2) (h 3) (h 4) (h 5) (h 6) (h 7))
+                                                       (fun b7 b8 b9 b10 b11 b12 b13 b14 ->
+                                                       if b7
+                                                       then if b8
+                                                            then "badcommand"
+                                                            else if b9
+                                                                 then 
+                                                                   "badcommand"
+                                                                 else 
+                                                                   if b10
+                                                                   then 
+                                                                    "badcommand"
+                                                                   else 
+                                                                    if b11
+                                                                    then 
+                                                                    "badcommand"
+                                                                    else 
+                                                                    if b12
+                                                                    then 
+                                                                    if b13
+                                                                    then 
+                                                                    if b14
+                                                                    then 
+                                                                    "badcommand"
+                                                                    else 
+                                                                    ((* If this appears, you're using String internals. Please don't *)
+ (fun f0 f1 s ->
+    let l = String.length s in
+    if l = 0 then f0 () else f1 (String.get s 0) (String.sub s 1 (l-1)))
+
+                                                                    (fun _ ->
+                                                                    "badcommand")
+                                                                    (fun a1 s2 ->
+                                                                    (* If this appears, you're using Ascii internals. Please don't *)
+ (fun f c ->
+  let n = Char.code c in
+  let h i = (n land (1 lsl i)) <> 0 in
+  f (h 0) (h 1) (h 2) (h 3) (h 4) (h 5) (h 6) (h 7))
+                                                                    (fun b15 b16 b17 b18 b19 b20 b21 b22 ->
+                                                                    if b15
+                                                                    then 
+                                                                    "badcommand"
+                                                                    else 
+                                                                    if b16
+                                                                    then 
+                                                                    if b17
+                                                                    then 
+                                                                    "badcommand"
+                                                                    else 
+                                                                    if b18
+                                                                    then 
+                                                                    "badcommand"
+                                                                    else 
+                                                                    if b19
+                                                                    then 
+                                                                    if b20
+                                                                    then 
+                                                                    if b21
+                                                                    then 
+                                                                    if b22
+                                                                    then 
+                                                                    "badcommand"
+                                                                    else 
+                                                                    ((* If this appears, you're using String internals. Please don't *)
+ (fun f0 f1 s ->
+    let l = String.length s in
+    if l = 0 then f0 () else f1 (String.get s 0) (String.sub s 1 (l-1)))
+
+                                                                    (fun _ ->
+                                                                    "badcommand")
+                                                                    (fun a2 s3 ->
+                                                                    (* If this appears, you're using Ascii internals. Please don't *)
+ (fun f c ->
+  let n = Char.code c in
+  let h i = (n land (1 lsl i)) <> 0 in
+  f (h 0) (h 1) (h 2) (h 3) (h 4) (h 5) (h 6) (h 7))
+                                                                    (fun b23 b24 b25 b26 b27 b28 b29 b30 ->
+                                                                    if b23
+                                                                    then 
+                                                                    if b24
+                                                                    then 
+                                                                    if b25
+                                                                    then 
+                                                                    "badcommand"
+                                                                    else 
+                                                                    if b26
+                                                                    then 
+                                                                    "badcommand"
+                                                                    else 
+                                                                    if b27
+                                                                    then 
+                                                                    if b28
+                                                                    then 
+                                                                    if b29
+                                                                    then 
+                                                                    if b30
+                                                                    then 
+                                                                    "badcommand"
+                                                                    else 
+                                                                    ((* If this appears, you're using String internals. Please don't *)
+ (fun f0 f1 s ->
+    let l = String.length s in
+    if l = 0 then f0 () else f1 (String.get s 0) (String.sub s 1 (l-1)))
+
+                                                                    (fun _ ->
+                                                                    "badcommand")
+                                                                    (fun a3 s4 ->
+                                                                    (* If this appears, you're using Ascii internals. Please don't *)
+ (fun f c ->
+  let n = Char.code c in
+  let h i = (n land (1 lsl i)) <> 0 in
+  f (h 0) (h 1) (h 2) (h 3) (h 4) (h 5) (h 6) (h 7))
+                                                                    (fun b31 b32 b33 b34 b35 b36 b37 b38 ->
+                                                                    if b31
+                                                                    then 
+                                                                    if b32
+                                                                    then 
+                                                                    "badcommand"
+                                                                    else 
+                                                                    if b33
+                                                                    then 
+                                                                    if b34
+                                                                    then 
+                                                                    "badcommand"
+                                                                    else 
+                                                                    if b35
+                                                                    then 
+                                                                    "badcommand"
+                                                                    else 
+                                                                    if b36
+                                                                    then 
+                                                                    if b37
+                                                                    then 
+                                                                    if b38
+                                                                    then 
+                                                                    "badcommand"
+                                                                    else 
+                                                                    ((* If this appears, you're using String internals. Please don't *)
+ (fun f0 f1 s ->
+    let l = String.length s in
+    if l = 0 then f0 () else f1 (String.get s 0) (String.sub s 1 (l-1)))
+
+                                                                    (fun _ ->
+                                                                    run_parse
+                                                                    rest)
+                                                                    (fun _ _ ->
+                                                                    "badcommand")
+                                                                    s4)
+                                                                    else 
+                                                                    "badcommand"
+                                                                    else 
+                                                                    "badcommand"
+                                                                    else 
+                                                                    "badcommand"
+                                                                    else 
+                                                                    "badcommand")
+                                                                    a3)
+                                                                    s3)
+                                                                    else 
+                                                                    "badcommand"
+                                                                    else 
+                                                                    "badcommand"
+                                                                    else 
+                                                                    "badcommand"
+                                                                    else 
+                                                                    "badcommand"
+                                                                    else 
+                                                                    "badcommand")
+                                                                    a2)
+                                                                    s2)
+                                                                    else 
+                                                                    "badcommand"
+                                                                    else 
+                                                                    "badcommand"
+                                                                    else 
+                                                                    "badcommand"
+                                                                    else 
+                                                                    "badcommand")
+                                                                    a1)
+                                                                    s1)
+                                                                    else 
+                                                                    "badcommand"
+                                                                    else 
+                                                                    "badcommand"
+                                                       else "badcommand")
+                                                       a0)
+                                                     s0)
+                                        else "badcommand"
+                                   else "badcommand"
+                              else "badcommand")
           a)
         s))
